@@ -21,6 +21,10 @@ G = ["TIMERS", "WAKEUP"]
 def queries(tier, kf):
     nfn = 2 if tier == "quick" else 3
     qs = [step("c03", 3, nfn, 1 if tier == "quick" else 2, 1, G, sop=sop, timeout=1500 if tier == "quick" else 7200) for sop in range(5)]
+    from .c06 import q as irq_q
+    qs.append(irq_q("c03-irq1-pass2", 1, 2, 4))     # interrupt part: the return value is asserted at every placement (harness/c06.c)
+    if tier == "thorough":
+        qs.append(irq_q("c03-irq2-pass2", 2, 2, 4, timeout=7200))
     cans = [("no-atomic-check", "\tif (!messageq_empty(&kernel.atomic_runq) || !list_empty(&kernel.runq))\n\t\treturn kernel.now;", "\tif (!list_empty(&kernel.runq))\n\t\treturn kernel.now;", 2),
             ("yield-sleeps", "\t\tif (kernel.state == FIBRE_STATE_YIELDED)\n\t\t\treturn kernel.now;", "", 0),
             ("unbounded", "return kernel.now + FIBRE_UNBOUNDED_SLEEP;", "return FIBRE_UNBOUNDED_SLEEP;", 0)]
